@@ -813,6 +813,15 @@ size_t gd_putdata64(DIRFILE* D, const char *field_code, off64_t first_frame,
  
   n_wrote = _GD_DoFieldOut(D, entry, first_samp, num_samp, data_type, data_in);
 
+  /* The data just written may be an input of any MPLEX field: forget the start
+   * values they cached from earlier reads */
+  if (n_wrote > 0) {
+    unsigned int i;
+    for (i = 0; i < D->n_entries; ++i)
+      if (D->entry[i]->field_type == GD_MPLEX_ENTRY && D->entry[i]->e)
+        D->entry[i]->e->u.mplex.type = GD_NULL;
+  }
+
   dreturn("%" PRIuSIZE, n_wrote);
   return n_wrote;
 }
